@@ -23,8 +23,12 @@ BOUNDS = {"quick": "221 name pairs x 3 derivation sites + the real CLI of mpi ge
           "thorough": "same (complete)"}
 
 VENDORS = ["nordicsemi.com", "", "a", "zażółć.example", "xY" * 150, "Nordicsemi.com", "nordicsemi.com.", "acme.example", "nordicsemi.com ", "2024", "y",
-           "ven\x0bdor\x0c.example", "nel\x85ls\u2028ps\u2029.example"]
-CLASSES = ["nRF54H20_sample_root", "nRF9280_sample_app", "", "b", "klasa_ąę€", "yZ" * 150, "nrf54h20_sample_root", "nRF54H20_sample_root.", "cls ", " cls", "0", "0x54", "y", "n", "007", "cl\x1cas\x1ds\x1e", "tab\there"]
+           "ven\x0bdor\x0c.example", "nel\x85ls\u2028ps\u2029.example",
+           # names that could be taken for something else: a UUID in three spellings, hex digits, a path, markup characters
+           "6ba7b8109dad11d180b400c04fd430c8", "7617daa5-71fd-5a85-8f94-e28d735ce9f4", "urn:uuid:{12345678-1234-5678-1234-567812345678}", "deadbeef",
+           "R&D <acme> 'labs'.example", "../vendor/name.example", "%s{0}$HOME\\n.example"]
+CLASSES = ["nRF54H20_sample_root", "nRF9280_sample_app", "", "b", "klasa_ąę€", "yZ" * 150, "nrf54h20_sample_root", "nRF54H20_sample_root.", "cls ", " cls", "0", "0x54", "y", "n", "007", "cl\x1cas\x1ds\x1e", "tab\there",
+           "d4c8f1a0-7e2b-5c3d-9a6f-0b1e2d3c4f5a", "cafe", "Tom's_<app>&co", "cls=1 # x", "a/b\\c"]
 CONFIGURABLE = ["APP_LOCAL_2", "APP_LOCAL_3", "RAD_LOCAL_2"]
 POOL = [("acme.example", "cls_a"), ("acme.example", "cls_b"), ("nordicsemi.com", "nRF54H20_sample_app"), ("Acme.example", "cls_a")]
 
